@@ -876,3 +876,15 @@ func checkBufferReads(p *Prog, r *Report, rule string) {
 	}
 	r.Facts[rule+".sites"] = n
 }
+
+// templateStoreFns: the functions that touch the template store field itself (under the collector's guarded-by table).
+func templateStoreFns(p *Prog) map[*ssa.Function]bool {
+	accs, _, _ := runGuardedBy(p, collectorGuardSpec())
+	touch := map[*ssa.Function]bool{}
+	for _, a := range accs {
+		if a.Field == cpTemplates {
+			touch[a.Fn] = true
+		}
+	}
+	return touch
+}
